@@ -2,6 +2,7 @@
 Floats travel as float.hex() strings.  No model logic here."""
 import json
 import sys
+import logging
 import warnings
 
 warnings.simplefilter("ignore")
@@ -10,6 +11,7 @@ import dask.array as da
 import numpy as np
 
 dask.config.set(scheduler="synchronous")
+logging.disable(logging.CRITICAL)
 from pyresample.geometry import AreaDefinition
 from pyresample import bucket
 from pyresample.bucket import BucketResampler
@@ -64,20 +66,21 @@ def run_case(case):
             else:
                 px, py = r.prj(np.array(xs), np.array(ys))
             o["px"], o["py"] = hx(px), hx(py)
-            xi, yi, ii = da.compute(r.x_idxs, r.y_idxs, r.idxs)
-            o["x_idxs"], o["y_idxs"], o["idxs"] = ints(xi), ints(yi), ints(ii)
             d = chunked(data, shape, ch["data"])
             fd = chunked(fdata, shape, ch["fdata"])
             o["data_chunks"] = [int(c) for c in d.ravel().chunks[0]]
-            o["count"] = ints(r.get_count().compute())
-            o["sum"] = hx(r.get_sum(d, fill_value=fill, skipna=skipna, empty_bucket_value=ebv).compute())
-            o["avg"] = hx(r.get_average(d, fill_value=fill, skipna=skipna).compute())
-            o["min"] = hx(r.get_min(fd).compute())
-            o["max"] = hx(r.get_max(fd).compute())
-            o["absmax"] = hx(r.get_abs_max(fd).compute())
+            lazy = [r.x_idxs, r.y_idxs, r.idxs, r.get_count(),
+                    r.get_sum(d, fill_value=fill, skipna=skipna, empty_bucket_value=ebv),
+                    r.get_average(d, fill_value=fill, skipna=skipna),
+                    r.get_min(fd), r.get_max(fd), r.get_abs_max(fd)]
             fr = r.get_fractions(fd, categories=cats, fill_value=ffill)
             o["cats"] = [float(k) for k in fr.keys()]
-            o["frac"] = [hx(v.compute()) for v in fr.values()]
+            res = da.compute(*(lazy + list(fr.values())))
+            o["x_idxs"], o["y_idxs"], o["idxs"] = ints(res[0]), ints(res[1]), ints(res[2])
+            o["count"] = ints(res[3])
+            for nm, v in zip(("sum", "avg", "min", "max", "absmax"), res[4:9]):
+                o[nm] = hx(v)
+            o["frac"] = [hx(v) for v in res[9:]]
             o["shape"] = [int(s) for s in r.get_count().shape]
             outs.append(o)
         except Exception as e:  # noqa
